@@ -332,7 +332,9 @@ def mutate(rng, wt):
             wt.smart_add([os.path.join(root, nd)])
             wt.rename_one(s, nd + "/" + os.path.basename(s))
             return ("into-new", s, nd)
-    except Exception as e:   # noqa: BLE001 - an edit the tree refuses
+    except (KeyboardInterrupt, SystemExit):
+        raise
+    except BaseException as e:   # noqa: BLE001 - an edit the tree refuses (pyo3 panics are BaseExceptions)
         return ("skip", op, type(e).__name__)
     return None
 
@@ -646,9 +648,14 @@ def run_sequence(ctx, seed, ncommits):
                 if o:
                     ops.append(o)
                     ctx.count("edit:" + o[0])
+            if any(o[0] == "skip" and o[2] == "PanicException" for o in ops):
+                ctx.count("sequence-abandoned:panic-in-working-tree")
+                break       # the working tree may be inconsistent after a panic in the inventory code
             try:
                 rid = wt.commit("c%d" % c)
-            except Exception:   # noqa: BLE001 - nothing to commit
+            except (KeyboardInterrupt, SystemExit):
+                raise
+            except BaseException:   # noqa: BLE001 - nothing to commit
                 continue
             revs.append(rid)
             r = rng.random()
